@@ -301,13 +301,6 @@ Proof.
 Qed.
 
 (* ---- keys never come from nowhere --------------------------------------------------------------- *)
-Definition op_keys (o : op) : list K :=
-  match o with
-  | SetItem k _ | GetItem k | Get k _ | DelItem k | Pop k _ | SetDefault k _ | Contains k => [k]
-  | Update l | Ior l => map fst l
-  | _ => []
-  end.
-
 Lemma keys_r_remove l k x : In x (Li2.keys (r_remove l k)) -> In x (Li2.keys l).
 Proof.
   unfold r_remove, Li2.keys. rewrite !in_map_iff. intros [p [E H]]. apply filter_In in H as [H _]. eauto.
